@@ -1,0 +1,11 @@
+//go:build !verif
+
+package filecache
+
+import "io"
+
+// crashPoint and crashReader are verification hooks which are only active with the build tag
+// "verif" (see crashpoint_verif.go). Without the tag they do nothing.
+func crashPoint(string) {}
+
+func crashReader(r io.Reader) io.Reader { return r }
